@@ -164,14 +164,18 @@ func (s *Fn) callFacts(c *ssa.Call, ret func(i int) Lin, res int) (out []Lin) {
 	r := ret(res)
 	switch n {
 	case "bytes.Index", "strings.Index":
+		// -1 when absent; only a match (r >= 0) lies inside the haystack together with the needle. (Stated without the
+		// guard the second fact is false for r = -1 and a haystack shorter than the needle by two or more.)
 		add(le(konst(-1), r))
-		add(le(r.add(s.lenOf(a[1]), 1), s.lenOf(a[0])))
+		add(le(r, s.lenOf(a[0])))
+		s.pendG = append(s.pendG, guardedFact{le(konst(0), r), le(r.add(s.lenOf(a[1]), 1), s.lenOf(a[0]))})
 	case "bytes.IndexByte", "strings.IndexRune", "strings.IndexAny", "strings.IndexByte", "bytes.IndexRune", "bytes.IndexAny", "slices.Index", "slices.IndexFunc":
 		add(le(konst(-1), r))
 		add(lt(r, s.lenOf(a[0])))
 	case "bytes.LastIndex", "strings.LastIndex":
 		add(le(konst(-1), r))
-		add(le(r.add(s.lenOf(a[1]), 1), s.lenOf(a[0])))
+		add(le(r, s.lenOf(a[0])))
+		s.pendG = append(s.pendG, guardedFact{le(konst(0), r), le(r.add(s.lenOf(a[1]), 1), s.lenOf(a[0]))})
 	case "bytes.LastIndexByte", "strings.LastIndexByte", "bytes.LastIndexAny", "strings.LastIndexAny", "bytes.IndexFunc", "bytes.LastIndexFunc", "strings.IndexFunc", "strings.LastIndexFunc":
 		add(le(konst(-1), r))
 		add(lt(r, s.lenOf(a[0])))
@@ -552,6 +556,7 @@ func (s *Fn) boundsOf(in ssa.Instruction) []Lin {
 			s.callF[in] = out
 			return out
 		}
+		s.pendG = nil
 		switch {
 		case isInt(v.Type()):
 			t := s.canon(v)
@@ -561,6 +566,7 @@ func (s *Fn) boundsOf(in ssa.Instruction) []Lin {
 			out = s.callFacts(v, func(int) Lin { return t }, -1)
 		}
 		s.callF[in] = out
+		s.guardF[in], s.pendG = s.pendG, nil
 		return out
 	case *ssa.Extract:
 		c, ok := v.Tuple.(*ssa.Call)
@@ -571,6 +577,7 @@ func (s *Fn) boundsOf(in ssa.Instruction) []Lin {
 			return f
 		}
 		var out []Lin
+		s.pendG = nil
 		switch {
 		case isInt(v.Type()):
 			t := s.canon(v)
@@ -580,6 +587,7 @@ func (s *Fn) boundsOf(in ssa.Instruction) []Lin {
 			out = s.callFacts(c, func(int) Lin { return t }, v.Index)
 		}
 		s.callF[in] = out
+		s.guardF[in], s.pendG = s.pendG, nil
 		return out
 	case *ssa.IndexAddr:
 		i, L := s.canon(v.Index), s.lenOfX(v.X)
@@ -613,6 +621,7 @@ func (s *Fn) boundsOf(in ssa.Instruction) []Lin {
 
 // factsAt collects facts valid just before instruction index idx of block b.
 func (s *Fn) factsAt(b *ssa.BasicBlock, idx int) (fs, dq []Lin) {
+	var gs []guardedFact
 	for d := b; d != nil; d = d.Idom() {
 		if len(d.Preds) == 1 {
 			f, q := s.edgeFacts(d.Preds[0], d)
@@ -627,7 +636,14 @@ func (s *Fn) factsAt(b *ssa.BasicBlock, idx int) (fs, dq []Lin) {
 		for _, in := range d.Instrs[:lim] {
 			if in.Pos() != token.NoPos || true {
 				fs = append(fs, s.boundsOf(in)...)
+				gs = append(gs, s.guardF[in]...)
 			}
+		}
+	}
+	// guarded postconditions whose guard the path to this point establishes
+	for _, g := range gs {
+		if s.direct(fs, dq, g.guard) {
+			fs = append(fs, g.fact)
 		}
 	}
 	return
